@@ -6,6 +6,7 @@ import (
 	"net/http"
 	"os"
 	"path/filepath"
+	"sort"
 	"strings"
 	"time"
 
@@ -252,56 +253,91 @@ func c15cases(c *h.Ctx) []fileCase {
 		cases = append(cases, fileCase{name: fmt.Sprintf("toml-truncated@%d", k), ext: ".toml", content: tm[:k]})
 	}
 	text := map[string]string{
-		"empty":              "",
-		"only-comment":       "# nothing\n",
-		"only-document-mark": "---\n",
-		"two-documents":      "tasks:\n  a:\n    command: [\"true\"]\n---\ntasks:\n  b:\n    command: [\"true\"]\n",
-		"bom":                "\xef\xbb\xbf" + y,
-		"crlf":               strings.ReplaceAll(y, "\n", "\r\n"),
-		"nul-bytes":          "tasks:\n  a\x00b:\n    command: [\"tr\x00ue\"]\n",
-		"invalid-utf8":       "tasks:\n  \xff\xfe:\n    command: [\"\xc3\x28\"]\n",
-		"tabs":               "tasks:\n\tt1:\n\t\tcommand: x\n",
-		"anchors":            "base: &b\n  command: [\"true\"]\ntasks:\n  t1: *b\n  t2:\n    <<: *b\n    dir: \".\"\n",
-		"anchor-unknown-top": "x: &b {command: [\"true\"]}\ntasks: {t1: *b}\n",
-		"alias-undefined":    "tasks:\n  t1: *nope\n",
-		"merge-non-map":      "tasks:\n  t1:\n    <<: [1,2]\n",
-		"alias-bomb":         "a: &a [\"x\",\"x\",\"x\",\"x\",\"x\",\"x\",\"x\",\"x\"]\nb: &b [*a,*a,*a,*a,*a,*a,*a,*a]\nc: &c [*b,*b,*b,*b,*b,*b,*b,*b]\nd: &d [*c,*c,*c,*c,*c,*c,*c,*c]\ntasks: {t1: {command: *d}}\n",
-		"recursive-alias":    "tasks: &t\n  t1: *t\n",
-		"non-string-keys":    "tasks:\n  1: {command: [\"true\"]}\n  true: {command: [\"true\"]}\n  null: {command: [\"true\"]}\n  [a]: {command: [\"true\"]}\n",
-		"duplicate-keys":     "tasks:\n  t1: {command: [\"true\"]}\n  t1: {command: [\"false\"]}\ntasks:\n  t2: {command: [\"true\"]}\n",
-		"task-empty-body":    "tasks:\n  t1:\n",
-		"stage-empty":        "tasks:\n  t1: {command: [\"true\"]}\npipelines:\n  p1:\n    - \n    - task: t1\n",
-		"context-empty":      "contexts:\n  c1:\ntasks:\n  t1: {command: [\"true\"], context: c1}\n",
-		"watcher-empty":      "tasks:\n  t1: {command: [\"true\"]}\nwatchers:\n  w1:\n",
-		"import-scalar":      "import: inc/extra.yaml\n",
-		"import-ints":        "import: [1, 2]\n",
-		"import-null-entry":  "import: [null]\n",
-		"import-map-entry":   "import: [{a: b}]\n",
-		"import-dir":         "import: [\"inc\"]\n",
-		"import-missing":     "import: [\"nope.yaml\"]\n",
-		"import-self":        "import: [\"f.yaml\"]\ntasks: {t1: {command: [\"true\"]}}\n",
-		"import-unsupported": "import: [\"vars.env\"]\n",
-		"import-broken":      "import: [\"inc/broken.yaml\"]\n",
-		"import-wrongtype":   "import: [\"inc/wrong.yaml\"]\n",
-		"stage-pipeline-dir": "tasks: {t1: {command: [\"true\"]}}\npipelines:\n  p2: [{task: t1}]\n  p1: [{pipeline: p2, dir: \"/tmp\"}]\n",
-		"stage-no-task":      "tasks: {t1: {command: [\"true\"]}}\npipelines:\n  p1: [{name: x}]\n",
-		"timeout-garbage":    "tasks: {t1: {command: [\"true\"], timeout: \"soon\"}}\n",
-		"timeout-negative":   "tasks: {t1: {command: [\"true\"], timeout: -5}}\n",
-		"timeout-float":      "tasks: {t1: {command: [\"true\"], timeout: 1.5}}\n",
-		"bool-garbage":       "tasks: {t1: {command: [\"true\"], allow_failure: \"maybe\"}}\n",
-		"deep-nesting":       "tasks: {t1: {command: [[[[[[[[[[\"true\"]]]]]]]]]]}}\n",
-		"long-line":          "tasks: {t1: {command: [\"" + strings.Repeat("x", 200000) + "\"]}}\n",
-		"many-tasks":         manyTasks(3000),
-		"watcher-bad-glob":   "tasks: {t1: {command: [\"true\"]}}\nwatchers: {w1: {watch: [\"[\"], task: t1}}\n",
+		"empty":               "",
+		"only-comment":        "# nothing\n",
+		"only-document-mark":  "---\n",
+		"two-documents":       "tasks:\n  a:\n    command: [\"true\"]\n---\ntasks:\n  b:\n    command: [\"true\"]\n",
+		"bom":                 "\xef\xbb\xbf" + y,
+		"crlf":                strings.ReplaceAll(y, "\n", "\r\n"),
+		"nul-bytes":           "tasks:\n  a\x00b:\n    command: [\"tr\x00ue\"]\n",
+		"invalid-utf8":        "tasks:\n  \xff\xfe:\n    command: [\"\xc3\x28\"]\n",
+		"tabs":                "tasks:\n\tt1:\n\t\tcommand: x\n",
+		"anchors":             "base: &b\n  command: [\"true\"]\ntasks:\n  t1: *b\n  t2:\n    <<: *b\n    dir: \".\"\n",
+		"anchor-unknown-top":  "x: &b {command: [\"true\"]}\ntasks: {t1: *b}\n",
+		"alias-undefined":     "tasks:\n  t1: *nope\n",
+		"merge-non-map":       "tasks:\n  t1:\n    <<: [1,2]\n",
+		"alias-bomb":          "a: &a [\"x\",\"x\",\"x\",\"x\",\"x\",\"x\",\"x\",\"x\"]\nb: &b [*a,*a,*a,*a,*a,*a,*a,*a]\nc: &c [*b,*b,*b,*b,*b,*b,*b,*b]\nd: &d [*c,*c,*c,*c,*c,*c,*c,*c]\ntasks: {t1: {command: *d}}\n",
+		"recursive-alias":     "tasks: &t\n  t1: *t\n",
+		"non-string-keys":     "tasks:\n  1: {command: [\"true\"]}\n  true: {command: [\"true\"]}\n  null: {command: [\"true\"]}\n  [a]: {command: [\"true\"]}\n",
+		"duplicate-keys":      "tasks:\n  t1: {command: [\"true\"]}\n  t1: {command: [\"false\"]}\ntasks:\n  t2: {command: [\"true\"]}\n",
+		"task-empty-body":     "tasks:\n  t1:\n",
+		"stage-empty":         "tasks:\n  t1: {command: [\"true\"]}\npipelines:\n  p1:\n    - \n    - task: t1\n",
+		"context-empty":       "contexts:\n  c1:\ntasks:\n  t1: {command: [\"true\"], context: c1}\n",
+		"watcher-empty":       "tasks:\n  t1: {command: [\"true\"]}\nwatchers:\n  w1:\n",
+		"import-scalar":       "import: inc/extra.yaml\n",
+		"import-ints":         "import: [1, 2]\n",
+		"import-null-entry":   "import: [null]\n",
+		"import-map-entry":    "import: [{a: b}]\n",
+		"import-dir":          "import: [\"inc\"]\n",
+		"import-missing":      "import: [\"nope.yaml\"]\n",
+		"import-self":         "import: [\"f.yaml\"]\ntasks: {t1: {command: [\"true\"]}}\n",
+		"import-unsupported":  "import: [\"vars.env\"]\n",
+		"import-broken":       "import: [\"inc/broken.yaml\"]\n",
+		"import-wrongtype":    "import: [\"inc/wrong.yaml\"]\n",
+		"stage-pipeline-dir":  "tasks: {t1: {command: [\"true\"]}}\npipelines:\n  p2: [{task: t1}]\n  p1: [{pipeline: p2, dir: \"/tmp\"}]\n",
+		"stage-no-task":       "tasks: {t1: {command: [\"true\"]}}\npipelines:\n  p1: [{name: x}]\n",
+		"timeout-garbage":     "tasks: {t1: {command: [\"true\"], timeout: \"soon\"}}\n",
+		"timeout-negative":    "tasks: {t1: {command: [\"true\"], timeout: -5}}\n",
+		"timeout-float":       "tasks: {t1: {command: [\"true\"], timeout: 1.5}}\n",
+		"bool-garbage":        "tasks: {t1: {command: [\"true\"], allow_failure: \"maybe\"}}\n",
+		"deep-nesting":        "tasks: {t1: {command: [[[[[[[[[[\"true\"]]]]]]]]]]}}\n",
+		"long-line":           "tasks: {t1: {command: [\"" + strings.Repeat("x", 200000) + "\"]}}\n",
+		"many-tasks":          manyTasks(3000),
+		"watcher-bad-glob":    "tasks: {t1: {command: [\"true\"]}}\nwatchers: {w1: {watch: [\"[\"], task: t1}}\n",
 		"watcher-bad-exclude": "tasks: {t1: {command: [\"true\"]}}\nwatchers: {w1: {watch: [\"*\"], exclude: [\"[\"], task: t1}}\n",
-		"output-unknown":     "output: sparkly\ntasks: {t1: {command: [\"true\"]}}\n",
-		"variations-scalars": "tasks: {t1: {command: [\"true\"], variations: [1, 2]}}\n",
-		"env-nested":         "tasks: {t1: {command: [\"true\"], env: {A: {B: c}}}}\n",
-		"env-null-value":     "tasks: {t1: {command: [\"true\"], env: {A: null}}}\n",
-		"env-list-value":     "tasks: {t1: {command: [\"true\"], env: {A: [1]}}}\n",
-		"variables-null":     "variables: {A: null}\ntasks: {t1: {command: [\"echo {{.A}}\"]}}\n",
+		"output-unknown":      "output: sparkly\ntasks: {t1: {command: [\"true\"]}}\n",
+		"variations-scalars":  "tasks: {t1: {command: [\"true\"], variations: [1, 2]}}\n",
+		"env-nested":          "tasks: {t1: {command: [\"true\"], env: {A: {B: c}}}}\n",
+		"env-null-value":      "tasks: {t1: {command: [\"true\"], env: {A: null}}}\n",
+		"env-list-value":      "tasks: {t1: {command: [\"true\"], env: {A: [1]}}}\n",
+		"variables-null":      "variables: {A: null}\ntasks: {t1: {command: [\"echo {{.A}}\"]}}\n",
 	}
 	text["layered-dag-declared-bottom-up"] = layeredDag(30)
+	// line breaks other than LF (yaml.v2 counts CR, NEL, LS and PS as breaks too) in files that are syntactically
+	// wrong further down: error positions then lie beyond the number of LF-separated lines
+	brk := map[string]string{"cr": "\r", "nel": "\u0085", "ls": "\u2028", "ps": "\u2029"}
+	bad := map[string]string{"open-flow": "x: [1, 2", "bare-word-at-eof": "dangling", "bad-indent": "  a: 1\n b: 2\n   c: 3", "tab": "\tk: v", "unclosed-quote": "q: \"never closed", "colon-soup": "a: b: c: d"}
+	lrnd := c.Rand("c15-linebreaks")
+	for bn, b := range brk {
+		for en, e := range bad {
+			// every newline replaced; the error last
+			text["breaks/"+bn+"-all/"+en] = strings.ReplaceAll(y, "\n", b) + b + e
+			// comment lines separated by the break in front of a normal document, the error last, no final newline
+			text["breaks/"+bn+"-comments/"+en] = strings.Repeat("# c"+b, 3+lrnd.Intn(40)) + "\n" + y + e
+			// breaks inside a quoted scalar
+			text["breaks/"+bn+"-in-scalar/"+en] = "tasks:\n  t1:\n    command: [\"a" + strings.Repeat(b, 1+lrnd.Intn(9)) + "b\"]\n" + e
+		}
+	}
+	for k := 0; k < c.N(60, 1500); k++ {
+		// seeded: some newlines of the base document replaced by other breaks, cut somewhere, an error appended
+		var sb strings.Builder
+		bs := []string{"\r", "\u0085", "\u2028", "\u2029", "\r\n"}
+		cut := lrnd.Intn(len(y))
+		for i := 0; i < cut; i++ {
+			if y[i] == '\n' && lrnd.Chance(40) {
+				sb.WriteString(bs[lrnd.Intn(len(bs))])
+			} else {
+				sb.WriteByte(y[i])
+			}
+		}
+		var es []string
+		for _, e := range bad {
+			es = append(es, e)
+		}
+		sort.Strings(es)
+		sb.WriteString(es[lrnd.Intn(len(es))])
+		text[fmt.Sprintf("breaks/seeded-%d", k)] = sb.String()
+	}
 	for k, v := range text {
 		cases = append(cases, fileCase{name: "text:" + k, ext: ".yaml", content: v})
 	}
@@ -317,8 +353,8 @@ func c15cases(c *h.Ctx) []fileCase {
 	}
 	tomlText := map[string]string{
 		"toml-import-scalar": "import = \"x.yaml\"\n", "toml-import-ints": "import = [1,2]\n",
-		"toml-dup-table":     "[tasks.t1]\ncommand=[\"true\"]\n[tasks.t1]\ncommand=[\"true\"]\n",
-		"toml-bad":           "[tasks\n", "toml-date": "[tasks.t1]\ncommand=[\"true\"]\ntimeout = 1979-05-27T07:32:00Z\n",
+		"toml-dup-table": "[tasks.t1]\ncommand=[\"true\"]\n[tasks.t1]\ncommand=[\"true\"]\n",
+		"toml-bad":       "[tasks\n", "toml-date": "[tasks.t1]\ncommand=[\"true\"]\ntimeout = 1979-05-27T07:32:00Z\n",
 		"toml-array-table-mismatch": "[[tasks]]\nname=\"x\"\n", "toml-inline": "tasks = {t1 = {command = [\"true\"]}}\n",
 	}
 	for k, v := range tomlText {
@@ -478,8 +514,8 @@ func c15urls(c *h.Ctx) {
 	}
 	defer ln.Close()
 	bodies := map[string]string{
-		"/ok.yaml": "tasks: {u: {command: [\"true\"]}}\n",
-		"/rel.yaml": "import: [\"ok.yaml\"]\ntasks: {r: {command: [\"true\"]}}\n",
+		"/ok.yaml":      "tasks: {u: {command: [\"true\"]}}\n",
+		"/rel.yaml":     "import: [\"ok.yaml\"]\ntasks: {r: {command: [\"true\"]}}\n",
 		"/percent.yaml": "import: [\"100%.yaml\"]\n", "/colon.yaml": "import: [\":more.yaml\"]\n", "/tab.yaml": "import: [\"a\\tb.yaml\"]\n",
 		"/space.yaml": "import: [\"a b.yaml\", \"%zz\"]\n", "/abs.yaml": "import: [\"/etc/hostname\"]\n", "/url.yaml": "import: [\"http://127.0.0.1:1/none.yaml\"]\n",
 		"/self.yaml": "import: [\"self.yaml\"]\ntasks: {s: {command: [\"true\"]}}\n", "/dir.yaml": "import: [\".\", \"..\", \"\"]\n",
